@@ -563,7 +563,9 @@ def edit_byte_interval(
     # TODO: what if blocks overlap over the insertion point?
     for b in bi.blocks:
         if b.offset >= offset and b not in static_blocks:
-            b.offset += size_delta
+            # A block that starts inside the removed range ends up at the
+            # edit point, not in front of it.
+            b.offset = max(offset, b.offset + size_delta)
 
     # adjust sym exprs that occur after the insertion point
     bi.symbolic_expressions = {
